@@ -378,6 +378,36 @@ impl Manager {
     }
 }
 
+/// Counts as one connection of a [`Manager`] from its creation until it is dropped.
+///
+/// Since [`Manager::remove_connection`] is called from [`Drop`], the count is also released when the
+/// task holding the guard panics or is cancelled; a shutdown then still completes.
+#[must_use]
+#[cfg_attr(not(feature = "graceful-shutdown"), allow(dead_code))]
+pub(crate) struct ConnectionGuard {
+    manager: Arc<Manager>,
+}
+#[cfg_attr(not(feature = "graceful-shutdown"), allow(dead_code))]
+impl ConnectionGuard {
+    /// Calls [`Manager::add_connection`].
+    pub(crate) fn new(manager: &Arc<Manager>) -> Self {
+        manager.add_connection();
+        Self {
+            manager: Arc::clone(manager),
+        }
+    }
+}
+impl Drop for ConnectionGuard {
+    fn drop(&mut self) {
+        self.manager.remove_connection();
+    }
+}
+impl Debug for ConnectionGuard {
+    fn fmt(&self, f: &mut Formatter<'_>) -> fmt::Result {
+        f.debug_struct(utils::ident_str!(ConnectionGuard)).finish()
+    }
+}
+
 /// The result of [`AcceptManager::accept`].
 /// Can either be a new connection or a shutdown signal.
 /// The listener should be dropped right after the shutdown signal is received.
